@@ -212,7 +212,7 @@ def setup():
 
 def main(tier, seed, replay=None):
     t0 = time.time()
-    proof = Proof(PROP)
+    proof = Proof(PROP, tier=tier)
     exe = setup()
     rng = random.Random(seed)
     nhist = 1500 if tier == "quick" else 60000
